@@ -1,6 +1,7 @@
 (* Props_C12.v — C12: temperature profiles are finite, positive and bounded by their control values. *)
 From Coq Require Import Reals List Lra.
 From TV Require Import Num ListNum ListNumR MovAvg Model_C12 Proofs_C12.
+From TV Require Import NumIv Reflect.
 Import ListNotations.
 Local Open Scope R_scope.
 
@@ -72,3 +73,13 @@ Theorem C12_guillot_positive : forall (kir kv1 kv2 alpha Tirr Tint grav P e21 e2
   0 < @guillot_T4 R RTNum kir kv1 kv2 alpha Tirr Tint grav P e21 e22.
 Proof. exact guillot_T4_positive. Qed.
 Print Assumptions C12_guillot_positive.
+
+(* ---- the executed (interval) instance encloses the real-number instance the theorems above are about:
+   Reflect.transfer, proved once for every straight-line kernel from the Interval library's correctness lemmas;
+   `defined` lists the side conditions of the real-number side (non-zero denominators, positive logarithm arguments) ---- *)
+Theorem C12_guillot_enclosed : forall aI bI cI dI eI fI gI hI iI jI a b c d e f g h i j,
+  encloses aI a -> encloses bI b -> encloses cI c -> encloses dI d -> encloses eI e -> encloses fI f -> encloses gI g ->
+  encloses hI h -> encloses iI i -> encloses jI j -> defined [a; b; c; d; e; f; g; h; i; j] guillot_T_e ->
+  encloses (@guillot_T I.type IvTNum aI bI cI dI eI fI gI hI iI jI) (@guillot_T R RTNum a b c d e f g h i j).
+Proof. exact guillot_T_transfer. Qed.
+Print Assumptions C12_guillot_enclosed.
